@@ -735,7 +735,19 @@ def outcome_of(st, c, version):
     if c['ops'] is None or c['apriori'] != 'valid':
         return None, 'accepted-unexpectedly'
     ids = [addrs.index(a) for a in (sel if sel is not None else addrs)]
-    return f'Ok {zlist(ids)} {coq_ops(c["ops"])}', 'ok'
+    ops = c['ops']
+    if c['kind'] == 'watchdog':
+        # the watchdog sets are not part of the model's tables: the route moves only if it sits in the set the
+        # command reads ('-' for announce, '+' for withdraw); read that from the snapshot taken before the command
+        sign = '-' if ops[0][0] == 'A' else '+'
+        has = {a: any(nm == 'dog' and sg == sign and idx for nm, sg, idx in st['before'][a][4]) for a in (sel if sel is not None else addrs)}
+        if all(has.values()):
+            pass
+        elif not any(has.values()):
+            ops = []
+        else:
+            return None, 'watchdog-mixed-state'
+    return f'Ok {zlist(ids)} {coq_ops(ops)}', 'ok'
 
 
 # ------------------------------------------------------------------------------- replay / shrink
@@ -823,8 +835,8 @@ def check(tier, seed):
     quick = tier == 'quick'
 
     # ======================================================================== part A
-    n_good = 120 if quick else 2500
-    n_bad = 40 if quick else 600
+    n_good = 120 if quick else 1500
+    n_bad = 40 if quick else 400
     cases = [gen_intake_case(rng, False) for _ in range(n_good)] + [gen_intake_case(rng, True) for _ in range(n_bad)]
     # the same streams again under other chunkings
     extra = []
@@ -976,7 +988,7 @@ def check(tier, seed):
     run.coverage['exhaustive_small_scope'] = {'stream': small.decode(), 'chunkings': ex_n}
     run.notes.append(f'part A done at {time.time() - run.t0:.1f}s')
     # ======================================================================== part B
-    nseq = 170 if quick else 3000
+    nseq = 170 if quick else 2500
     seqs = []
     for k in range(nseq):
         version = 6 if k % 5 < 3 else 4
